@@ -10,6 +10,7 @@ fingerprints are compared with the tuples the real code pickles; the model's reb
 tree (shape, flops, write, size) is compared with the tree search() hands back.
 Oracle: every returned tree is judged against the property text with an independent
 cost evaluator (vlib/oracle.py)."""
+import copy
 import math
 import os
 import pickle
@@ -99,6 +100,50 @@ def make_optimizer(sess, directory):
     return ctg.ReusableRandomGreedyOptimizer(max_repeats=sess["repeats"], parallel=False, **kw)
 
 
+def store_snapshot_mem(opt):
+    """deep copy of the memory tier: repr(key) -> entry"""
+    return {repr(k): copy.deepcopy(v) for k, v in opt._cache._mem_cache.items()}
+
+
+def store_snapshot_disk(directory):
+    """relative path -> file bytes of everything below the cache directory"""
+    out = {}
+    if directory and os.path.isdir(directory):
+        for dp, dns, fns in os.walk(directory):
+            for f in fns:
+                pth = os.path.join(dp, f)
+                try:
+                    with open(pth, "rb") as fh:
+                        out[os.path.relpath(pth, directory)] = fh.read()
+                except OSError:
+                    out[os.path.relpath(pth, directory)] = None
+    return out
+
+
+def store_diff(mem0, mem1, disk0, disk1):
+    """None, or what a read changed in the store"""
+    for k, v in mem0.items():
+        if k not in mem1:
+            return "memory entry %s disappeared" % k
+        if mem1[k] != v:
+            return "memory entry %s changed from %r to %r" % (k, v, mem1[k])
+    for k, v in mem1.items():
+        if k not in mem0:
+            # memoisation of an entry read from disk: must be the value some file holds
+            vals = []
+            for b in disk1.values():
+                try:
+                    vals.append(pickle.loads(b))
+                except Exception:
+                    pass
+            if disk1 and v not in vals:
+                return "memory entry %s = %r appeared that no file holds" % (k, v)
+    if disk0 != disk1:
+        ch = sorted(set(disk0) ^ set(disk1)) or sorted(k for k in disk0 if disk0[k] != disk1.get(k))
+        return "files changed: %r" % (ch[:4],)
+    return None
+
+
 def run_session(sess, pool, directory):
     _install_capture()
     opt = make_optimizer(sess, directory)
@@ -124,7 +169,7 @@ def run_session(sess, pool, directory):
         except BaseException as e:
             maybe_log.append(("raise", type(e).__name__))
             raise
-        maybe_log.append(("ok", bool(r[0]), dict(r[1])))
+        maybe_log.append(("ok", bool(r[0]), copy.deepcopy(dict(r[1])) if isinstance(r[1], dict) else {"malformed": repr(r[1])}))
         return r
 
     opt._run_optimizer = run_wrap
@@ -137,6 +182,8 @@ def run_session(sess, pool, directory):
         del maybe_log[:]
         del failed[:]
         rec = {"q": qi, "split_used": opt.directory_split}
+        mem_before = store_snapshot_mem(opt)
+        disk_before = store_snapshot_disk(directory)
         with warnings.catch_warnings(record=True) as w:
             warnings.simplefilter("always")
             try:
@@ -160,8 +207,13 @@ def run_session(sess, pool, directory):
         mc = opt._cache._mem_cache
         rec["mem_keys"] = list(mc)
         ent = mc.get(key, mc.get((key,) if not isinstance(key, tuple) else key))
-        rec["stored"] = dict(ent) if ent is not None else None
+        rec["stored"] = copy.deepcopy(dict(ent)) if isinstance(ent, dict) else (None if ent is None else repr(ent))
         rec["dir"] = list_dir(directory)
+        # a call that did not search is a read: it must leave every stored entry (memory tier and files)
+        # exactly as it was; the only allowed change is memoising an entry read from disk
+        if len(searches) == nb and not failed:
+            rec["hit_modified"] = store_diff(mem_before, store_snapshot_mem(opt), disk_before,
+                                             store_snapshot_disk(directory))
         recs.append(rec)
     return recs
 
@@ -398,7 +450,7 @@ def score_z(x, K):
 
 def con_lit(con, K):
     return "(mkCon %s %s %s)" % (coq([(int(a), int(b)) for a, b in con["path"]]), coq(Z(score_z(con["score"], K))),
-                                 coq([gen.IDX[c] for c in con["sliced_inds"]]))
+                                 coq([gen.IDX[c] for c in con.get("sliced_inds", ())]))
 
 
 def cfg_lit(sess, split):
@@ -460,6 +512,15 @@ def close(a, b):
     return abs(a - b) <= 1e-9 * max(1.0, abs(a), abs(b))
 
 
+ENTRY_KEYS = ("path", "score", "sliced_inds")
+
+
+def entry_eq(a, b):
+    return (isinstance(a, dict) and isinstance(b, dict) and all(k in a and k in b for k in ENTRY_KEYS)
+            and tuple(map(tuple, a["path"])) == tuple(map(tuple, b["path"])) and a["score"] == b["score"]
+            and tuple(a["sliced_inds"]) == tuple(b["sliced_inds"]))
+
+
 def judge_tree(q, ti, stored, kind):
     """the returned tree against the property text; returns None or a description"""
     inputs, output, sd = q
@@ -473,6 +534,9 @@ def judge_tree(q, ti, stored, kind):
         return "tree rebuilt with a warning: %s" % ti["warnings"][0]
     if stored is None:
         return "nothing stored for the queried contraction after the call"
+    missing = [k for k in ENTRY_KEYS if not isinstance(stored, dict) or k not in stored]
+    if missing:
+        return "the stored entry has lost its key(s) %r: %r" % (missing, stored)
     allix = {ix for t in inputs for ix in t}
     if set(ti["sliced"]) != set(stored["sliced_inds"]) or not set(ti["sliced"]) <= allix:
         return "sliced indices %r differ from the stored %r (or do not exist in the query)" % (
@@ -689,6 +753,16 @@ def run(ctx):
                   csess(kind, split, [2, 0, 3], overwrite="improved", call="call")]
             classes.append({"dir": usedir, "tags": ["class_%s_%s" % (kind, "flat" if not split else "split")] * 4,
                             "pool": [(list(i), o, dict(sd)) for i, o, sd in cpool], "sessions": ss})
+    # slicing optimizers, the same contraction queried >= 3 times through search() on one object (one search +
+    # two hits), again after a fresh-process reload (three hits), and by a fresh cache_only process: every hit
+    # must return the stored sliced indices and score, and must leave the stored entry untouched
+    for usedir, split in ((True, True), (True, False), (False, True)):
+        ss = [dict(csess("hyper", split, [0, 0, 0, 3, 3, 3, 0]), slicing=True),
+              dict(csess("hyper", split, [0, 0, 0, 3, 3], fresh=usedir), slicing=True),
+              dict(csess("hyper", "auto" if usedir else split, [3, 3, 3, 0, 0, 0], fresh=usedir, cache_only=usedir),
+                   slicing=True)]
+        classes.append({"dir": usedir, "tags": ["class_sliced_repeats_%s" % ("split" if split else "flat")] * 4,
+                        "pool": [(list(i), o, dict(sd)) for i, o, sd in cpool], "sessions": ss})
     hists = probes + classes + hists
     ctx.log("running %d histories through the real optimizers" % len(hists))
     reals = run_workers(ctx, hists)
@@ -730,121 +804,149 @@ def run(ctx):
         # ---------------- oracle over the history -----------------------------------
         sharers = {}          # entry -> the queries that stored or were served under it
         exact = {}            # the very same contraction (same layout / method) -> stored path, score, digest
+        ref_entry = {}        # entry -> deep copy of the record as it was when it was stored
         known_recs = set()
         last_path = {}        # (digest) -> stored path after the last successful call
         last_score = {}
         nontriv = False
         subfail = False
-        for si, (sess, sr) in enumerate(zip(hist["sessions"], real)):
-            prev_ns = 0
-            ctx.count("session_overwrite_%s" % sess["overwrite"])
-            ctx.count("hash_%s" % sess["hash_method"])
-            if sess["fresh"]:
-                ctx.count("fresh_process_session")
-            if sess["cache_only"]:
-                ctx.count("cache_only_session")
-            if sess["split"] == "auto":
-                ctx.count("split_auto")
-            if sess["slicing"]:
-                ctx.count("slicing_session")
-            if not hist["dir"]:
-                last_path, last_score = {}, {}     # nothing persists without a directory
-                sharers = {}
-                exact = {}
-            for rec in sr["recs"]:
-                q = hist["pool"][rec["q"]]
-                tag = hist["tags"][rec["q"]]
-                dg = (rec["digest"], bool(rec["split_used"]))      # the entry: digest in this layout
-                searched_now = rec["nsearch"] - prev_ns
-                prev_ns = rec["nsearch"]
-                if rec["subopt_failed"]:
-                    ctx.count("suboptimizer_itself_failed")
-                    subfail = True
-                    continue
-                rep = {"history": desc, "session": si, "query": q, "tag": tag, "record": {
-                    k: rec.get(k) for k in ("maybe", "raise", "stored", "digest", "nsearch", "path")},
-                    "tree": rec.get("tree")}
-                others = [o for o in sharers.get(dg, []) if o != q]
-                collided = any(not equiv_a(o, q) for o in others)
-                if others:
-                    ctx.count("shared_entry_%s" % ("equivalent" if not collided else "NOT_equivalent"))
-                key = None
-                if collided and sess["hash_method"] == "b":
-                    mm_ = rec["maybe"]
-                    sliced_ = bool(mm_ and mm_[0] == "ok" and mm_[2]["sliced_inds"])
-                    if any(b2_fp(o) != b2_fp(q) for o in others if not equiv_a(o, q)):
-                        key = "hash-b-collision"          # sub-cases removed by the proposed repair
-                    elif sliced_:
-                        key = "hash-b-relabel-sliced"     # a true relabelling, but sliced indices are labels
-                    if key:
-                        known_recs.add(id(rec))
-                qk = (repr((tuple(map(tuple, q[0])), tuple(q[1]), tuple(sorted(q[2].items())))),
-                      bool(rec["split_used"]), sess["hash_method"])
-                if qk in exact and exact[qk]["digest"] != rec["digest"]:
-                    ctx.fail("the cache key of one and the same contraction differs between processes "
-                             "(%s vs %s): the stored entry can never be hit again" % (exact[qk]["digest"], rec["digest"]),
-                             dict(rep, hashseed_note="fresh sessions run with PYTHONHASHSEED=1,2,3"))
-                if collided and sess["hash_method"] == "a":
-                    ctx.fail("two contractions that are not equal up to index order share an entry under hash 'a'",
-                             dict(rep, others=others))
-                # cache_only never searches
-                if sess["cache_only"] and searched_now:
-                    ctx.fail("cache_only=True but a search was run", rep)
-                m = rec["maybe"]
-                ok = m is not None and m[0] == "ok"
-                if sess["cache_only"] and not ok:
-                    ctx.count("cache_only_keyerror")
-                    if m is None or m[1] != "KeyError":
-                        ctx.fail("cache_only miss raised %r instead of KeyError" % (m,), rep)
-                    elif qk in exact and sess["overwrite"] is False:
-                        ctx.fail("cache_only=True raised KeyError for a contraction that is stored in this directory", rep)
-                    continue
-                if not ok:
-                    report("query raised %r" % (rec.get("raise"),), rep, key=key)
-                    continue
-                if dg not in last_path and qk in exact:
-                    # stored by an earlier process under (what should be) the same key
-                    last_path[dg] = exact[qk]["path"]
-                    last_score[dg] = exact[qk]["score"]
-                present_before = dg in last_path
-                # repeat: no new search, same path
-                if present_before and sess["overwrite"] is False:
-                    ctx.count("hit")
-                    nontriv = True
-                    if searched_now:
-                        ctx.fail("a repeated query searched again", rep)
-                    if tuple(map(tuple, m[2]["path"])) != last_path[dg]:
-                        ctx.fail("a repeated query returned another path than stored", rep)
-                elif not searched_now:
-                    ctx.fail("a missing (or overwrite) query was answered without searching", rep)
-                else:
-                    ctx.count("search")
-                st = rec["stored"]
-                if st is None:
-                    ctx.fail("nothing is stored under the query's key after a successful call", rep)
-                    continue
-                if present_before and sess["overwrite"] == "improved":
-                    ctx.count("improved_requery")
-                    nontriv = True
-                    if st["score"] > last_score[dg]:
-                        ctx.fail("overwrite='improved' made the stored score worse: %r -> %r" % (
-                            last_score[dg], st["score"]), rep)
-                if tuple(map(tuple, st["path"])) != tuple(map(tuple, m[2]["path"])) or st["score"] != m[2]["score"]:
-                    ctx.fail("the answer handed out is not the stored entry", rep)
-                if q not in sharers.setdefault(dg, []):
-                    sharers[dg].append(q)
-                last_path[dg] = tuple(map(tuple, st["path"]))
-                last_score[dg] = st["score"]
-                exact[qk] = {"path": last_path[dg], "score": st["score"], "digest": rec["digest"]}
-                if "tree" in rec:
-                    bad = judge_tree(q, rec["tree"], st, sess["kind"])
-                    if bad:
-                        report(bad, rep, key=key)
-                elif "path" in rec:
-                    if rec["path"] != last_path[dg] or replay_linear(len(q[0]), rec["path"]) is None:
-                        report("__call__ returned %r: not the stored complete path" % (rec["path"],), rep, key=key)
-                elif "raise" in rec:
-                    report("search() raised %r after _maybe_run_optimizer succeeded" % (rec["raise"],), rep, key=key)
+        try:
+            for si, (sess, sr) in enumerate(zip(hist["sessions"], real)):
+                prev_ns = 0
+                ctx.count("session_overwrite_%s" % sess["overwrite"])
+                ctx.count("hash_%s" % sess["hash_method"])
+                if sess["fresh"]:
+                    ctx.count("fresh_process_session")
+                if sess["cache_only"]:
+                    ctx.count("cache_only_session")
+                if sess["split"] == "auto":
+                    ctx.count("split_auto")
+                if sess["slicing"]:
+                    ctx.count("slicing_session")
+                if not hist["dir"]:
+                    last_path, last_score = {}, {}     # nothing persists without a directory
+                    sharers = {}
+                    exact = {}
+                    ref_entry = {}
+                for rec in sr["recs"]:
+                    q = hist["pool"][rec["q"]]
+                    tag = hist["tags"][rec["q"]]
+                    dg = (rec["digest"], bool(rec["split_used"]))      # the entry: digest in this layout
+                    searched_now = rec["nsearch"] - prev_ns
+                    prev_ns = rec["nsearch"]
+                    if rec["subopt_failed"]:
+                        ctx.count("suboptimizer_itself_failed")
+                        subfail = True
+                        continue
+                    rep = {"history": desc, "session": si, "query": q, "tag": tag, "record": {
+                        k: rec.get(k) for k in ("maybe", "raise", "stored", "digest", "nsearch", "path")},
+                        "tree": rec.get("tree")}
+                    others = [o for o in sharers.get(dg, []) if o != q]
+                    collided = any(not equiv_a(o, q) for o in others)
+                    if others:
+                        ctx.count("shared_entry_%s" % ("equivalent" if not collided else "NOT_equivalent"))
+                    key = None
+                    if collided and sess["hash_method"] == "b":
+                        mm_ = rec["maybe"]
+                        sliced_ = bool(mm_ and mm_[0] == "ok" and mm_[2].get("sliced_inds"))
+                        if any(b2_fp(o) != b2_fp(q) for o in others if not equiv_a(o, q)):
+                            key = "hash-b-collision"          # sub-cases removed by the proposed repair
+                        elif sliced_:
+                            key = "hash-b-relabel-sliced"     # a true relabelling, but sliced indices are labels
+                        if key:
+                            known_recs.add(id(rec))
+                    qk = (repr((tuple(map(tuple, q[0])), tuple(q[1]), tuple(sorted(q[2].items())))),
+                          bool(rec["split_used"]), sess["hash_method"])
+                    if qk in exact and exact[qk]["digest"] != rec["digest"]:
+                        ctx.fail("the cache key of one and the same contraction differs between processes "
+                                 "(%s vs %s): the stored entry can never be hit again" % (exact[qk]["digest"], rec["digest"]),
+                                 dict(rep, hashseed_note="fresh sessions run with PYTHONHASHSEED=1,2,3"))
+                    if collided and sess["hash_method"] == "a":
+                        ctx.fail("two contractions that are not equal up to index order share an entry under hash 'a'",
+                                 dict(rep, others=others))
+                    # cache_only never searches
+                    if sess["cache_only"] and searched_now:
+                        ctx.fail("cache_only=True but a search was run", rep)
+                    m = rec["maybe"]
+                    ok = m is not None and m[0] == "ok"
+                    if sess["cache_only"] and not ok:
+                        ctx.count("cache_only_keyerror")
+                        if m is None or m[1] != "KeyError":
+                            ctx.fail("cache_only miss raised %r instead of KeyError" % (m,), rep)
+                        elif qk in exact and sess["overwrite"] is False:
+                            ctx.fail("cache_only=True raised KeyError for a contraction that is stored in this directory", rep)
+                        continue
+                    if not ok:
+                        report("query raised %r" % (rec.get("raise"),), rep, key=key)
+                        continue
+                    if rec.get("hit_modified"):
+                        ctx.fail("a cache hit modified the stored entry: " + rec["hit_modified"][:300],
+                                 dict(rep, store_before_vs_after=rec["hit_modified"]))
+                    lacking = [k_ for k_ in ENTRY_KEYS if k_ not in m[2]]
+                    if lacking:
+                        ctx.fail("a cache hit modified the stored entry: the record handed out by _maybe_run_optimizer "
+                                 "lacks %r" % (lacking,), rep)
+                        continue
+                    if not searched_now and dg in ref_entry and not entry_eq(m[2], ref_entry[dg]) \
+                            and not (sess["overwrite"] is not False):
+                        report("a cache hit handed out %r, which is not the entry that was stored: %r" % (
+                            m[2], ref_entry[dg]), rep, key=key)
+                    if dg not in last_path and qk in exact:
+                        # stored by an earlier process under (what should be) the same key
+                        last_path[dg] = exact[qk]["path"]
+                        last_score[dg] = exact[qk]["score"]
+                    present_before = dg in last_path
+                    # repeat: no new search, same path
+                    if present_before and sess["overwrite"] is False:
+                        ctx.count("hit")
+                        nontriv = True
+                        if searched_now:
+                            ctx.fail("a repeated query searched again", rep)
+                        if tuple(map(tuple, m[2]["path"])) != last_path[dg]:
+                            ctx.fail("a repeated query returned another path than stored", rep)
+                    elif not searched_now:
+                        ctx.fail("a missing (or overwrite) query was answered without searching", rep)
+                    else:
+                        ctx.count("search")
+                    st = rec["stored"]
+                    if st is None:
+                        ctx.fail("nothing is stored under the query's key after a successful call", rep)
+                        continue
+                    if not isinstance(st, dict) or any(k_ not in st for k_ in ENTRY_KEYS):
+                        ctx.fail("a cache hit modified the stored entry: the entry held in the memory cache is now %r" % (st,),
+                                 rep)
+                        continue
+                    if present_before and sess["overwrite"] == "improved":
+                        ctx.count("improved_requery")
+                        nontriv = True
+                        if st["score"] > last_score[dg]:
+                            ctx.fail("overwrite='improved' made the stored score worse: %r -> %r" % (
+                                last_score[dg], st["score"]), rep)
+                    if tuple(map(tuple, st["path"])) != tuple(map(tuple, m[2]["path"])) or st["score"] != m[2]["score"]:
+                        ctx.fail("the answer handed out is not the stored entry", rep)
+                    if q not in sharers.setdefault(dg, []):
+                        sharers[dg].append(q)
+                    last_path[dg] = tuple(map(tuple, st["path"]))
+                    last_score[dg] = st["score"]
+                    if searched_now or dg not in ref_entry:
+                        ref_entry[dg] = copy.deepcopy(m[2])
+                    exact[qk] = {"path": last_path[dg], "score": st["score"], "digest": rec["digest"]}
+                    if "tree" in rec:
+                        # every hit must return the sliced indices and the score that were STORED
+                        bad = judge_tree(q, rec["tree"], ref_entry.get(dg, st), sess["kind"])
+                        if bad:
+                            report(bad, rep, key=key)
+                    elif "path" in rec:
+                        if rec["path"] != last_path[dg] or replay_linear(len(q[0]), rec["path"]) is None:
+                            report("__call__ returned %r: not the stored complete path" % (rec["path"],), rep, key=key)
+                    elif "raise" in rec:
+                        report("search() raised %r after _maybe_run_optimizer succeeded" % (rec["raise"],), rep, key=key)
+        except Exception:
+            # a malformed observation is a finding to report, never a harness crash
+            import traceback
+            ctx.fail("the observations of this history could not be judged (the implementation returned or stored "
+                     "something of an unexpected shape): " + traceback.format_exc()[-600:], {"history": desc})
+            subfail = True
         ctx.case((hi, repr(hist["pool"]), repr(hist["sessions"])), nontrivial=nontriv,
                  sample=desc if hi in (2, 3) else None)
         # ---------------- model cases ----------------------------------------------------
